@@ -901,7 +901,10 @@ FileNames(q) == [j \in 1..Len(q.file) |-> q.file[j].ln]
 FileRec(q, n) == q.file[CHOOSE j \in 1..Len(q.file) : q.file[j].ln = n]
 CfgSame(c, r) == /\ c.ver = r.ver /\ c.G = r.G /\ c.W = r.W /\ c.sing = r.sing /\ c.prio = r.prio /\ c.auto = r.auto
                  /\ c.resp = r.resp /\ c.ssig = r.ssig /\ c.sch = r.sch /\ c.hup = r.hup /\ c.retry = r.retry
-OrderBy(S, pref, base) == SelectSeq(pref, LAMBDA x : x \in S) \o SelectSeq(base, LAMBDA x : x \in S /\ x \notin SeqSet(pref))
+OrderBy(S, pref, base) ==
+  LET rest == SelectSeq([j \in 1..Len(base) |-> j],
+                        LAMBDA j : base[j] \in S /\ base[j] \notin SeqSet(pref) /\ \A i \in 1..(j - 1) : base[i] # base[j])
+  IN SelectSeq(pref, LAMBDA x : x \in S) \o [j \in 1..Len(rest) |-> base[rest[j]]]
 P_reloadcfg(s, f) ==
   LET fr == s.fr[f]
       \* the request is copied into the frame at the first step: other requests arrive while this one is under way
